@@ -93,7 +93,16 @@ type qgen struct {
 	varDep       bool // ... and may be given through variables (only with useVars)
 	rootTypename bool
 	deepRef      bool // full selections below type / ofType / interfaces / possibleTypes
+
+	// template mode (history part): every includeDeprecated argument is a numbered placeholder
+	// that is filled in per request, and the operation head is the placeholder headMark
+	template bool
+	nSites   int
 }
+
+const headMark = "\u00a7HEAD\u00a7"
+
+func siteMark(k int) string { return fmt.Sprintf("\u00a7%d\u00a7", k) }
 
 func isTypeRefField(name string) bool {
 	return name == "type" || name == "ofType" || name == "interfaces" || name == "possibleTypes"
@@ -134,6 +143,13 @@ func (g *qgen) incDepArg() string {
 	t := g.t
 	if !g.incDepArgs {
 		return ""
+	}
+	if g.template {
+		if !chance(t, 85, "incdep-site") {
+			return ""
+		}
+		g.nSites++
+		return "(includeDeprecated: " + siteMark(g.nSites-1) + ")"
 	}
 	k := rapid.IntRange(0, 99).Draw(t, "incdep")
 	switch {
@@ -204,6 +220,9 @@ func (g *qgen) sel(meta string, depth int) string {
 		}
 		if f.name == "ofType" {
 			pct = 15
+		}
+		if g.template && f.incDep && depth < 4 {
+			pct = 70
 		}
 		if !chance(t, pct, "obj-"+f.name) {
 			continue
@@ -279,6 +298,13 @@ func (g *qgen) leafSel(meta string) string {
 }
 
 func genQuery(t *rapid.T, typeNames []string, queryType string, allowFindingShapes bool) queryCase {
+	qc, _ := genQueryOrTemplate(t, typeNames, queryType, allowFindingShapes, false)
+	return qc
+}
+
+// genQueryOrTemplate: with template set, the result is an operation template (see qgen.template)
+// and the number of includeDeprecated sites in it.
+func genQueryOrTemplate(t *rapid.T, typeNames []string, queryType string, allowFindingShapes, template bool) (queryCase, int) {
 	g := &qgen{t: t, typeNames: typeNames, vars: map[string]any{}, incDepArgs: true}
 	// operation variables and includeDeprecated arguments only meet in a class of their own
 	// (recorded finding: the argument is lost once the operation declares variables)
@@ -288,6 +314,9 @@ func genQuery(t *rapid.T, typeNames []string, queryType string, allowFindingShap
 		g.useVars, g.incDepArgs = true, false
 	default:
 		g.useVars, g.varDep = true, true
+	}
+	if template {
+		g.template, g.useVars, g.varDep, g.incDepArgs = true, false, false, true
 	}
 	if allowFindingShapes {
 		g.nestedAlias = chance(t, 7, "class-nested-alias")
@@ -343,7 +372,9 @@ func genQuery(t *rapid.T, typeNames []string, queryType string, allowFindingShap
 		}
 	}
 	head := ""
-	if len(g.varDefs) > 0 {
+	if g.template {
+		head = headMark
+	} else if len(g.varDefs) > 0 {
 		head = "query Q(" + strings.Join(g.varDefs, ", ") + ") "
 	} else {
 		head = rapid.SampledFrom([]string{"", "query ", "query Intro "}).Draw(t, "head")
@@ -366,7 +397,7 @@ func genQuery(t *rapid.T, typeNames []string, queryType string, allowFindingShap
 	if len(g.vars) > 0 {
 		qc.Vars = marshalSorted(g.vars)
 	}
-	return qc
+	return qc, g.nSites
 }
 
 func jsonString(s string) string {
